@@ -27,7 +27,7 @@ def measure(family: str, seed: int, n: int):
     common.enter_scratch()
     from harness import genexec
     rnd = random.Random(seed)
-    stats = {'cases': 0, 'impl_ne_hand': 0, 'gen_follows_impl': 0, 'gen_ne_impl': 0, 'impl_crash': 0, 'examples': []}
+    stats = {'cases': 0, 'impl_ne_hand': 0, 'gen_follows_impl': 0, 'gen_ne_impl': 0, 'raised_halfway': 0, 'impl_crash': 0, 'examples': []}
     def note(kind, info):
         if len([e for e in stats['examples'] if e[0] == kind]) < 2: stats['examples'].append([kind, info])
 
@@ -59,6 +59,12 @@ def measure(family: str, seed: int, n: int):
                 hand_same = a == b and ((st['other'] is None) == (mo['other'] is None)) and \
                     (st['other'] is None or canon_obs(st['other']) == canon_obs(mo['other']))
                 gen_same = genexec.ag_step_same(op, st, a, go, canon_obs, canon_out)
+                if not gen_same and st['err'] is not None and go['err'] == st['err']:
+                    # both raise, the states differ: the implementation raised half-way; the translation drops the heap of a
+                    # raising call (DESIGN §I.9 "not modelled") - nothing to compare, the history ends
+                    stats['raised_halfway'] += 1
+                    if mo['err'] is None: stats['impl_ne_hand'] += 1; stats['gen_follows_impl'] += 1
+                    note('raised-half-way', {'step': i, 'op': op, 'err': st['err'], 'hand_err': mo['err']}); break
                 if not gen_same:
                     stats['gen_ne_impl'] += 1
                     note('gen!=impl', {'ops': ops[:i + 1], 'impl': [st['err'], st['out'], st['obs']], 'gen': [go['err'], go['out'], go['obs']]})
@@ -94,6 +100,10 @@ def measure(family: str, seed: int, n: int):
                 a = [st['err'] is not None, canon_out(st['out']), canon_obs(st['obs'])]
                 b = [mo['err'] is not None, canon_out(mo['out']), canon_obs(mo['obs'])]
                 g = [go['err'] is not None, canon_out(go['out']), canon_obs(go['obs'])]
+                if a != g and a[0] and g[0]:
+                    stats['raised_halfway'] += 1
+                    if not b[0]: stats['impl_ne_hand'] += 1; stats['gen_follows_impl'] += 1
+                    note('raised-half-way', {'step': i, 'op': op, 'err': st['err'], 'hand_err': mo['err']}); break
                 if a != g:
                     stats['gen_ne_impl'] += 1
                     note('gen!=impl', {'ops': ops[:i + 1], 'impl': [st['err'], st['out'], st['obs']], 'gen': [go['err'], go['out'], go['obs']]})
